@@ -830,6 +830,37 @@ static int rtr_undo_update_spki_table(struct rtr_socket *rtr_socket, struct spki
 }
 
 /*
+ * @brief Reverts the already applied PDUs of a failed data synchronisation.
+ *
+ * The operations are inverted in the reverse order of their application,
+ * otherwise a record that was announced and withdrawn again (or the other way
+ * round) in the same response cannot be restored. If any operation cannot be
+ * inverted, all records of the socket are removed from both tables and a new
+ * session is requested, so that the next query is a Reset Query.
+ */
+static void rtr_undo_updates(struct rtr_socket *rtr_socket, struct pfx_table *pfx_table, struct spki_table *spki_table,
+			     struct pdu_ipv4 *ipv4_pdus, unsigned int ipv4_count, struct pdu_ipv6 *ipv6_pdus,
+			     unsigned int ipv6_count, struct pdu_router_key *router_key_pdus,
+			     unsigned int router_key_count)
+{
+	bool undone = true;
+
+	for (unsigned int j = router_key_count; j > 0 && undone; j--)
+		undone = rtr_undo_update_spki_table(rtr_socket, spki_table, &(router_key_pdus[j - 1])) == SPKI_SUCCESS;
+	for (unsigned int j = ipv6_count; j > 0 && undone; j--)
+		undone = rtr_undo_update_pfx_table(rtr_socket, pfx_table, &(ipv6_pdus[j - 1])) == PFX_SUCCESS;
+	for (unsigned int j = ipv4_count; j > 0 && undone; j--)
+		undone = rtr_undo_update_pfx_table(rtr_socket, pfx_table, &(ipv4_pdus[j - 1])) == PFX_SUCCESS;
+
+	if (!undone) {
+		RTR_DBG1("Couldn't undo all update operations from failed data synchronisation: Purging all records");
+		pfx_table_src_remove(pfx_table, rtr_socket);
+		spki_table_src_remove(spki_table, rtr_socket);
+		rtr_socket->request_session_id = true;
+	}
+}
+
+/*
  * @brief Appends the Prefix PDU pdu to ary.
  *
  * @return RTR_SUCCESS On success
@@ -1193,15 +1224,8 @@ static int rtr_sync_receive_and_store_pdus(struct rtr_socket *rtr_socket)
 					// undo all record updates, except the last which produced the error
 					RTR_DBG("Error during data synchronisation, recovering Serial Nr. %u state",
 						rtr_socket->serial_number);
-					for (unsigned int j = 0; j < i && retval == PFX_SUCCESS; j++)
-						retval = rtr_undo_update_pfx_table(rtr_socket, pfx_update_table,
-										   &(ipv4_pdus[j]));
-					if (retval == RTR_ERROR) {
-						RTR_DBG1(
-							"Couldn't undo all update operations from failed data synchronisation: Purging all records");
-						pfx_table_src_remove(rtr_socket->pfx_table, rtr_socket);
-						rtr_socket->request_session_id = true;
-					}
+					rtr_undo_updates(rtr_socket, pfx_update_table, spki_update_table, ipv4_pdus, i, NULL,
+							 0, NULL, 0);
 					rtr_change_socket_state(rtr_socket, RTR_ERROR_FATAL);
 					retval = RTR_ERROR;
 					goto cleanup;
@@ -1214,18 +1238,8 @@ static int rtr_sync_receive_and_store_pdus(struct rtr_socket *rtr_socket)
 					// undo all record updates if error occurred
 					RTR_DBG("Error during data synchronisation, recovering Serial Nr. %u state",
 						rtr_socket->serial_number);
-					for (unsigned int j = 0; j < ipv4_pdus_nindex && retval == PFX_SUCCESS; j++)
-						retval = rtr_undo_update_pfx_table(rtr_socket, pfx_update_table,
-										   &(ipv4_pdus[j]));
-					for (unsigned int j = 0; j < i && retval == PFX_SUCCESS; j++)
-						retval = rtr_undo_update_pfx_table(rtr_socket, pfx_update_table,
-										   &(ipv6_pdus[j]));
-					if (retval == PFX_ERROR) {
-						RTR_DBG1(
-							"Couldn't undo all update operations from failed data synchronisation: Purging all records");
-						pfx_table_src_remove(rtr_socket->pfx_table, rtr_socket);
-						rtr_socket->request_session_id = true;
-					}
+					rtr_undo_updates(rtr_socket, pfx_update_table, spki_update_table, ipv4_pdus,
+							 ipv4_pdus_nindex, ipv6_pdus, i, NULL, 0);
 					rtr_change_socket_state(rtr_socket, RTR_ERROR_FATAL);
 					retval = RTR_ERROR;
 					goto cleanup;
@@ -1239,24 +1253,8 @@ static int rtr_sync_receive_and_store_pdus(struct rtr_socket *rtr_socket)
 				    SPKI_ERROR) {
 					RTR_DBG("Error during router key data synchronisation, recovering Serial Nr. %u state",
 						rtr_socket->serial_number);
-					for (unsigned int j = 0; j < ipv4_pdus_nindex && retval == PFX_SUCCESS; j++)
-						retval = rtr_undo_update_pfx_table(rtr_socket, pfx_update_table,
-										   &(ipv4_pdus[j]));
-					for (unsigned int j = 0; j < ipv6_pdus_nindex && retval == PFX_SUCCESS; j++)
-						retval = rtr_undo_update_pfx_table(rtr_socket, pfx_update_table,
-										   &(ipv6_pdus[j]));
-					for (unsigned int j = 0;
-					// cppcheck-suppress duplicateExpression
-					     j < i && (retval == PFX_SUCCESS || retval == SPKI_SUCCESS); j++)
-						retval = rtr_undo_update_spki_table(rtr_socket, spki_update_table,
-										    &(router_key_pdus[j]));
-					// cppcheck-suppress duplicateExpression
-					if (retval == RTR_ERROR || retval == SPKI_ERROR) {
-						RTR_DBG1(
-							"Couldn't undo all update operations from failed data synchronisation: Purging all key entries");
-						spki_table_src_remove(spki_update_table, rtr_socket);
-						rtr_socket->request_session_id = true;
-					}
+					rtr_undo_updates(rtr_socket, pfx_update_table, spki_update_table, ipv4_pdus,
+							 ipv4_pdus_nindex, ipv6_pdus, ipv6_pdus_nindex, router_key_pdus, i);
 					rtr_change_socket_state(rtr_socket, RTR_ERROR_FATAL);
 					retval = RTR_ERROR;
 					goto cleanup;
